@@ -20,7 +20,7 @@ RULE = ('fitted-model family F (17 estimators x one configuration per option val
 ASSUMPTIONS = ['Reference: exact rational evaluation of sum_k (L_k . (u-v))^2 over the float entries of components_; '
                'tolerance 8(k+d+2) eps || |L| |u-v| ||_2 per distance (backward error bound of the float evaluation).',
                'Coverage is the finite query alphabet; nothing is claimed about other real points.']
-BIG = 2 ** 15 + 7     # one batch larger than any plausible internal block size, not a multiple of a power of two
+BIG = 2 ** 16 + 2 ** 13 + 7     # one batch larger than any plausible internal block size (> 65536), not a multiple of a power of two
 
 
 def V(site, clause, msg, triggers=(), **detail):
@@ -98,11 +98,10 @@ def run_case(spec):
         dev[~np.isfinite(big)] = np.inf
         worst = np.zeros(nq * nq)
         np.maximum.at(worst, idx, dev)
-        arg = {}
-        for t in np.argsort(dev):
-            arg[idx[t]] = t
-        for k in range(nq * nq):
-            folded[k] = big[arg[k]]
+        order = np.argsort(dev, kind='stable')
+        last = np.full(nq * nq, -1)
+        last[idx[order]] = order                     # for every pair: position of its WORST copy inside the large batch
+        folded = big[last]
         yield 'pair_distance(batch of %d pairs)' % BIG, folded.reshape(nq, nq)
         yield 'get_metric()', np.array([[metric(Q[i], Q[j]) for j in range(nq)] for i in range(nq)])
         # the same function object called with two REUSED buffers that are overwritten in place between calls
